@@ -64,7 +64,8 @@ Step ==
            ELSE \E r \in EnvReactions : Fetch(r)
         ELSE Fetch(ListReact(g, FetchInput(S)))
   \/ \E d \in {"ok", "raise", "fail", "later"} : Exec(d)
-  \/ Start \/ Top \/ Wake \/ AfterSleep0 \/ (\E b \in BOOLEAN : DeliverCancel(b)) \/ CmdDone \/ Exit \/ TailStep \/ (\E cr \in CloseReacts : Finally(cr) \/ AOpsStep(cr)) \/ AOpsCancel
+  \/ Start \/ Top \/ Wake \/ AfterSleep0 \/ (\E b \in BOOLEAN : DeliverCancel(b)) \/ CmdDone \/ Exit \/ TailStep \/ (\E cr \in CloseReacts : \E bad \in SUBSET Flyers : Finally(cr, bad) \/ AOpsStep(cr, bad) \/ Backstop(cr, bad)) \/ AOpsCancel \/ BackCancel
+     \/ (\E d \in {"ok", "raise"} : CollectDone(d))
   \/ /\ Has(0) /\ At(0)[1] = "req"
      /\ \/ At(0)[2] = "pause" /\ ReqPause(FALSE)
         \/ At(0)[2] = "defer" /\ ReqPause(TRUE)
